@@ -42,6 +42,20 @@ fn main() {
             serde_json::from_slice(&std::fs::read(p).expect("read replay file")).expect("replay json");
         replay = Some(v.get("replay").cloned().unwrap_or(v));
     }
+    // Generous wall-clock watchdog: the soft budget (CV_BUDGET_S) only stops new cases from
+    // starting; an operation that never returns (deadlock) would otherwise hang the check.
+    // Its firing is inconclusive, never a violation: exit 2, no VIOLATION line.
+    {
+        let hard = std::env::var("CV_HARD_S").ok().and_then(|s| s.parse::<u64>().ok()).unwrap_or(tier.pick(1800, 10800));
+        let id = id.clone();
+        std::thread::spawn(move || {
+            std::thread::sleep(std::time::Duration::from_secs(hard));
+            eprintln!("watchdog: cases in flight: {:?}", report::in_flight());
+            println!("INCONCLUSIVE property={id} hard wall-clock limit of {hard} s reached without a verdict (some operation did not return; see stderr for the cases in flight)");
+            scratch::cleanup_all();
+            std::process::exit(2);
+        });
+    }
     let code = props::dispatch(&id, tier, replay, &args[2..]);
     scratch::cleanup_all();
     std::process::exit(code);
